@@ -35,6 +35,7 @@ def run(rep, ctx):
     rep.run_rule("C10.R5", "FromScalars converts every element with the unit given to the constructor", r5_from_scalars, ctx)
     rep.run_rule("C10.R6", "the pair generator passes operands through unchanged", r6_passthrough, ctx)
     rep.run_rule("C10.R8", "no method of Array/FixedArray uses the values container in a truth context (ndarray truth values are ambiguous)", r8_no_truth_test_on_values, ctx)
+    rep.run_rule("C10.R10", "string conversion formulas are compiled as written: placeholders become the argument and nothing scalar-only is wrapped around it", r10_formula_compile, ctx)
     rep.run_rule("C10.R7", "Array.GetAbstractValue converts every element to the requested unit", r7_getvalues, ctx)
     from . import c01, c02
     rep.rule("C10.R9", "the element-wise branch of UnitDatabase.Convert converts every element by the same route as a single number, for every container kind (shared with C01.R4 / C02.R1)")
@@ -465,3 +466,29 @@ def _term_in_comprehension(res, e):
                         return ("elem", _term_in_comprehension(res, g.iter))
             p = getattr(p, "_parent", None)
     return res.term(e)
+
+
+# ------------------------------------------------------------------------------------------------
+def r10_formula_compile(rep, ctx):
+    """UnitInfo compiles a formula string to `lambda x: <formula>`; numpy evaluates that element-wise (trusted).
+    This holds only if the rewriting of the string replaces placeholders by the bare argument: a rewrite that
+    takes effect and wraps the argument (`float(x)`, `int(x)`, `math.sqrt(x)`) makes the compiled function
+    scalar-only, so ndarray-backed Arrays convert differently from lists and Scalars."""
+    m = ctx.model
+    mk = [f for q, f in m.funcs.items() if f.name == "MakeLambda" and f.parent is not None and f.parent.cls == "UnitInfo"]
+    if len(mk) != 1:
+        raise AnalysisError("UnitInfo's formula compiler (MakeLambda) was not found")
+    fn = mk[0]
+    n = 0
+    for st in own_statements(fn.node):
+        if not isinstance(st, (ast.Assign, ast.Return)) or st.value is None:
+            continue
+        # replace calls whose result is kept (assigned / returned); a bare expression statement has no effect
+        for c in ast.walk(st.value):
+            if isinstance(c, ast.Call) and isinstance(c.func, ast.Attribute) and c.func.attr == "replace" and len(c.args) >= 2:
+                n += 1
+                new = c.args[1]
+                ok = isinstance(new, ast.Constant) and new.value == "x"
+                rep.check(ok, "C10.R10", "MakeLambda:%s" % norm(ast.unparse(c))[-60:], "the rewrite puts the bare argument in place of a placeholder",
+                          "the formula string is rewritten with `%s`: the compiled conversion wraps its argument in something other than the argument itself, which a numpy array does not survive (float(array) raises or collapses it)" % norm(ast.unparse(c))[-70:], node=c, fn=fn)
+    rep.floor("C10.R10", "effective rewrites of the formula string", n, 1)
